@@ -33,7 +33,7 @@ DIMS = {
     "key_seq": [2, 0, 255],
     "pan": [(0x1A2B, bytes(range(0x10, 0x18))), (0xFFFE, b"\xff" * 7 + b"\x01"), (0x0001, b"\x00" * 7 + b"\x01")],
     "ieee": ["other", "same"],
-    "prior": ["blank", "same-backup", "other-backup"],
+    "prior": ["blank", "same-backup", "other-backup", "stale-keys"],   # stale-keys: no network, but link keys left in the NCP's table (an earlier restore died after writing them)
     "burn": ["no", "allowed"],     # the user's "burn the EUI64 into the manufacturing token once" switch (matters without the rewritable token)
 }
 
@@ -151,7 +151,10 @@ def one_case(version, rewritable, c):
     out = []
     try:
         t = ctx.ncp.t
-        if c["prior"] != "blank":
+        if c["prior"] == "stale-keys":
+            for i in range(3):
+                ctx.ncp.key_table[i] = (bytes([0xE0 + i, 9, 9, 9, 9, 9, 9, 9]), bytes([0xD0 + i] * 16))
+        elif c["prior"] != "blank":
             ni0, no0 = make_info(ctx, c, variant=0 if c["prior"] == "same-backup" else 5)
             r = ctx.run(ctx.app.write_network_info(network_info=ni0, node_info=no0))
             if r[0] != "ok":
@@ -209,7 +212,7 @@ def one_case(version, rewritable, c):
                 out.append(f"child table: read back {gc}, written {wc}")
         # EUI64: where the NCP can take it (rewritable token) or it already matches
         # ... or burn it once into the manufacturing token when the user allowed that and it is still blank
-        burned_before = c["prior"] != "blank" and c.get("burn") == "allowed" and not ctx.ncp.rewritable and c["ieee"] == "other"
+        burned_before = c["prior"] not in ("blank", "stale-keys") and c.get("burn") == "allowed" and not ctx.ncp.rewritable and c["ieee"] == "other"
         can_burn = c.get("burn") == "allowed" and not ctx.ncp.rewritable and (not burned_before or c["prior"] == "same-backup")
         can_write = ctx.ncp.rewritable or c["ieee"] == "same" or can_burn
         if can_write and gno.ieee != want_ieee:
